@@ -1464,6 +1464,7 @@ def _setitem(a, key, value):
         raise OutOfSubset("newaxis in assignment")
     # per-dimension: membership test of a source position, and its coordinate in the selection
     tests = []       # per dim: (member(i) -> Bool, coord(i) -> Int | None if the dim is dropped, extent | None)
+    kinds_ = []      # per dim: "int" | "slice" | "adv" (NumPy's placement rule below needs to know which is which)
     arr_oks, arr_empties = [], []      # bounds of index arrays are checked only when no array factor is empty (NumPy's rule)
     plain_index_arrays = []            # ranks of the integer index arrays met (to tell an open mesh from paired 1-D arrays)
     for d, k in enumerate(key):
@@ -1471,6 +1472,7 @@ def _setitem(a, key, value):
         if isinstance(k, (int, SymInt)) and not isinstance(k, bool):
             j = _check_index(k, n)
             tests.append((lambda i, j=j: zint(i) == zint(j), None, None))
+            kinds_.append("int")
         elif isinstance(k, slice):
             lo, cnt, step = slice_params(k, n)
             lo_t, cnt_t = zint(lo), zint(cnt)
@@ -1481,6 +1483,7 @@ def _setitem(a, key, value):
                 mem = lambda i, lo_t=lo_t, cnt_t=cnt_t, step=step: z3.And(zint(i) <= lo_t, (lo_t - zint(i)) % (-step) == 0, (lo_t - zint(i)) / (-step) < cnt_t)
                 co = lambda i, lo_t=lo_t, step=step: (lo_t - zint(i)) / (-step)
             tests.append((mem, co, cnt))
+            kinds_.append("slice")
         elif isinstance(k, ndarray) and k.is_whole() and "arange" in k.buf.tags:
             # positions that are the expansion of a slice: closed-form membership
             lo, cnt, step = k.buf.tags["arange"]
@@ -1492,6 +1495,7 @@ def _setitem(a, key, value):
                 mem = lambda i, lo_t=lo_t, cnt_t=cnt_t, step=step: z3.And(zint(i) <= lo_t, (lo_t - zint(i)) % (-step) == 0, (lo_t - zint(i)) / (-step) < cnt_t)
                 co = lambda i, lo_t=lo_t, step=step: (lo_t - zint(i)) / (-step)
             tests.append((mem, co, cnt))
+            kinds_.append("adv")
             arr_empties.append(zint(cnt) == 0)
         elif isinstance(k, (list, tuple, ndarray)):
             arr = asarray(k)
@@ -1508,6 +1512,7 @@ def _setitem(a, key, value):
                 rk = z3.Function(fresh_name("sel_rank"), z3.IntSort(), z3.IntSort())
                 ctx().add(forall(0, pos._shape[0], lambda q: rk(fp(q)) == q, dom=n))
                 tests.append((lambda i, fm=fm: fm(zint(i)), lambda i, rk=rk: rk(zint(i)), pos._shape[0]))
+                kinds_.append("adv")
                 arr_empties.append(zint(pos._shape[0]) == 0)
             elif arr.kind in "iu" or conc(arr.size) == 0:
                 # integer positions (1-D, or one factor of an np.ix_ open mesh): the written cell for a repeated
@@ -1541,6 +1546,7 @@ def _setitem(a, key, value):
                     mem = lambda i, w=w, mt=mt, g=g: z3.And(w(zint(i)) >= 0, w(zint(i)) < mt, g(w(zint(i))) == zint(i))
                     co = lambda i, w=w: w(zint(i))
                 tests.append((mem, co, m))
+                kinds_.append("adv")
             else:
                 raise IndexError("arrays used as indices must be of integer (or boolean) type")
         else:
@@ -1553,7 +1559,14 @@ def _setitem(a, key, value):
     if arr_oks and not ctx().decide(z3.Or(z3.Or(arr_empties), z3.And(arr_oks)),
                                     "integer index arrays in bounds (or the broadcast index is empty)"):
         raise IndexError("index out of bounds")
-    selshape = tuple(t[2] for t in tests if t[1] is not None)
+    # NumPy's placement rule: integers count as advanced indices next to an array index; when the advanced indices are
+    # SEPARATED by a slice, the dimensions they produce come FIRST in the selection (the value is laid out accordingly)
+    selorder = [d for d, t in enumerate(tests) if t[1] is not None]
+    if "adv" in kinds_:
+        grp = [d for d, kd in enumerate(kinds_) if kd in ("adv", "int")]
+        if builtins.any(kinds_[d] == "slice" for d in range(builtins.min(grp), builtins.max(grp) + 1)):
+            selorder = [d for d in selorder if kinds_[d] == "adv"] + [d for d in selorder if kinds_[d] == "slice"]
+    selshape = tuple(tests[d][2] for d in selorder)
     if isinstance(value, ndarray):
         vshape, ia, ib = _bshape(selshape, value._shape)
         if len(vshape) != len(selshape):
@@ -1564,7 +1577,7 @@ def _setitem(a, key, value):
                     raise ValueError("could not broadcast input array from shape into shape")
         fv = value.snapshot()
         def newval(idx):
-            sel = tuple(t[1](i) for t, i in zip(tests, idx) if t[1] is not None)
+            sel = tuple(tests[d][1](idx[d]) for d in selorder)
             return conv(fv(*ib(sel)))
     else:
         tv = conv(_scalar_term(value))
